@@ -5,5 +5,6 @@ CONSTANTS
   QueriesPerReader = 1
   LockBeforeBump = TRUE
   DropSessions = TRUE
+  EarlyRelease = FALSE
   Emit = TRUE
 CHECK_DEADLOCK FALSE
